@@ -2,13 +2,21 @@
 
 package replication
 
+// Contracts for the cell decoder CellBytes and the length rule cellLength
+// (properties C08–C13). The specification is written from the MySQL
+// documentation of the row-image format (fixed widths, length prefixes,
+// packed temporal layouts, decimal2bin), independently of the code and of
+// this package's test builders.
+
 import (
 	"bytes"
 
 	"github.com/Breeze0806/gobinlog/internal/vspec"
 )
 
-// ---- spec helpers (pure, loop-free) ----
+func init() { vspec.Shared = append(vspec.Shared, ZeroTimestamp) }
+
+// ---- little / big endian reads (pure, loop-free) ----
 
 func specLE(data []byte, pos int, n int) uint64 {
 	var v uint64
@@ -25,7 +33,16 @@ func specLE(data []byte, pos int, n int) uint64 {
 		v |= uint64(data[pos+3]) << 24
 	}
 	if n > 4 {
-		v |= uint64(data[pos+4])<<32 | uint64(data[pos+5])<<40 | uint64(data[pos+6])<<48 | uint64(data[pos+7])<<56
+		v |= uint64(data[pos+4]) << 32
+	}
+	if n > 5 {
+		v |= uint64(data[pos+5]) << 40
+	}
+	if n > 6 {
+		v |= uint64(data[pos+6]) << 48
+	}
+	if n > 7 {
+		v |= uint64(data[pos+7]) << 56
 	}
 	return v
 }
@@ -56,10 +73,6 @@ func specSext(v uint64, n int) int64 {
 	return int64(v<<sh) >> sh
 }
 
-func specIsIntType(typ byte) bool {
-	return typ == TypeTiny || typ == TypeShort || typ == TypeInt24 || typ == TypeLong || typ == TypeLongLong
-}
-
 func specIntWidth(typ byte) int {
 	switch typ {
 	case TypeTiny:
@@ -74,25 +87,74 @@ func specIntWidth(typ byte) int {
 	return 8
 }
 
-// which types this probe's contract covers
-func specCovered(typ byte, metadata uint16) bool {
+// declared maximum byte length of a CHAR/BINARY column from its packed metadata
+func specCharMax(metadata uint16) int {
+	return int((((metadata >> 4) & 0x300) ^ 0x300) + (metadata & 0xff))
+}
+
+// ---- the valid metadata domain of each supported type (C09's quantifier) ----
+
+func specValidMeta(typ byte, metadata uint16) bool {
+	lo := metadata & 0xff
+	hi := metadata >> 8
 	switch typ {
-	case TypeTiny, TypeShort, TypeInt24, TypeLong, TypeLongLong, TypeYear, TypeDate, TypeNewDate, TypeTime, TypeDateTime,
-		TypeTimestamp:
+	case TypeTiny, TypeShort, TypeInt24, TypeLong, TypeLongLong, TypeYear, TypeFloat, TypeDouble,
+		TypeDate, TypeNewDate, TypeTime, TypeDateTime, TypeTimestamp, TypeVarchar, TypeVarString:
 		return true
 	case TypeTime2, TypeDateTime2, TypeTimestamp2:
 		return metadata <= 6
-	case TypeVarchar, TypeVarString:
-		return true
+	case TypeBit:
+		// high byte: whole bytes, low byte: leftover bits; BIT(1..64)
+		return lo <= 7 && hi <= 8 && hi*8+lo >= 1 && hi*8+lo <= 64
 	case TypeNewDecimal:
-		p, sc := int(metadata>>8), int(metadata&0xff)
-		return p >= 1 && p <= 65 && sc == 0
+		return hi >= 1 && hi <= 65 && lo <= 30 && lo <= hi
+	case TypeEnum:
+		return lo == 1 || lo == 2
+	case TypeSet:
+		return lo >= 1 && lo <= 8
+	case TypeTinyBlob, TypeMediumBlob, TypeLongBlob, TypeBlob, TypeGeometry, TypeJSON:
+		return metadata >= 1 && metadata <= 4
+	case TypeString:
+		if hi == TypeEnum {
+			return lo == 1 || lo == 2
+		}
+		if hi == TypeSet {
+			return lo >= 1 && lo <= 8
+		}
+		// real type STRING with the two high length bits folded into bits 4-5 of the type byte
+		return hi == 254 || hi == 238 || hi == 222 || hi == 206
 	}
 	return false
 }
 
+// number of length-prefix bytes in front of the value
+func specPrefix(typ byte, metadata uint16) int {
+	switch typ {
+	case TypeVarchar, TypeVarString:
+		if metadata > 255 {
+			return 2
+		}
+		return 1
+	case TypeTinyBlob, TypeMediumBlob, TypeLongBlob, TypeBlob, TypeGeometry, TypeJSON:
+		return int(metadata)
+	case TypeString:
+		if metadata>>8 == TypeEnum || metadata>>8 == TypeSet {
+			return 0
+		}
+		if specCharMax(metadata) > 255 {
+			return 2
+		}
+		return 1
+	}
+	return 0
+}
+
 func specFracBytes(fsp uint16) int { return (int(fsp) + 1) / 2 }
 
+// bytes needed for 0..9 leftover decimal digits (decimal2bin)
+var specDig2bytes = []int{0, 1, 1, 2, 2, 3, 3, 4, 4, 4}
+
+// specCellLen is the number of bytes a cell of the given type occupies at data[pos:].
 func specCellLen(data []byte, pos int, typ byte, metadata uint16) int {
 	switch typ {
 	case TypeTiny, TypeYear:
@@ -101,9 +163,9 @@ func specCellLen(data []byte, pos int, typ byte, metadata uint16) int {
 		return 2
 	case TypeInt24, TypeDate, TypeNewDate, TypeTime:
 		return 3
-	case TypeLong, TypeTimestamp:
+	case TypeLong, TypeTimestamp, TypeFloat:
 		return 4
-	case TypeLongLong, TypeDateTime:
+	case TypeLongLong, TypeDateTime, TypeDouble:
 		return 8
 	case TypeTime2:
 		return 3 + specFracBytes(metadata)
@@ -111,29 +173,31 @@ func specCellLen(data []byte, pos int, typ byte, metadata uint16) int {
 		return 5 + specFracBytes(metadata)
 	case TypeTimestamp2:
 		return 4 + specFracBytes(metadata)
-	case TypeVarchar, TypeVarString:
-		if metadata > 255 {
-			return 2 + int(specLE(data, pos, 2))
-		}
-		return 1 + int(data[pos])
+	case TypeBit:
+		return int(metadata>>8) + int((metadata&0xff)+7)/8
+	case TypeEnum, TypeSet:
+		return int(metadata & 0xff)
 	case TypeNewDecimal:
 		p, sc := int(metadata>>8), int(metadata&0xff)
 		intg := p - sc
 		return (intg/9)*4 + specDig2bytes[intg%9] + (sc/9)*4 + specDig2bytes[sc%9]
+	case TypeString:
+		if metadata>>8 == TypeEnum || metadata>>8 == TypeSet {
+			return int(metadata & 0xff)
+		}
 	}
-	return 0
+	w := specPrefix(typ, metadata)
+	return w + int(specLE(data, pos, w))
 }
 
-// maximal number of bytes the cell can occupy (so that the requires is loop-free and does not read data)
-func specCellMax(typ byte, metadata uint16) int {
-	switch typ {
-	case TypeVarchar, TypeVarString:
-		return 2
-	case TypeNewDecimal:
-		return 1
-	}
-	return 8
+// specCellOK: the cell lies inside data (overflow-safe formulation).
+func specCellOK(data []byte, pos int, typ byte, metadata uint16) bool {
+	return specValidMeta(typ, metadata) && pos >= 0 && pos <= len(data) &&
+		len(data)-pos >= specPrefix(typ, metadata) &&
+		len(data)-pos >= specCellLen(data, pos, typ, metadata)
 }
+
+// ---- value text ----
 
 func specDate(v uint64) vspec.Text {
 	return vspec.Cat(vspec.Num(4, v>>9), vspec.Lit("-"), vspec.Num(2, (v>>5)&15), vspec.Lit("-"), vspec.Num(2, v&31))
@@ -207,6 +271,7 @@ func specTime2(data []byte, pos int, fsp uint16) vspec.Text {
 	return vspec.Cat(sign, specHMS((hms>>12)&0x3ff, (hms>>6)&0x3f, hms&0x3f), specFrac(fsp, fr))
 }
 
+// specCellText is the canonical text of the cell (the statement of C10–C13).
 func specCellText(data []byte, pos int, typ byte, metadata uint16, uns bool) vspec.Text {
 	switch typ {
 	case TypeTiny, TypeShort, TypeInt24, TypeLong, TypeLongLong:
@@ -216,6 +281,10 @@ func specCellText(data []byte, pos int, typ byte, metadata uint16, uns bool) vsp
 			return vspec.Num(1, v)
 		}
 		return vspec.DecS(specSext(v, n))
+	case TypeFloat:
+		return vspec.Float(specLE(data, pos, 4), 'f', -1, 32)
+	case TypeDouble:
+		return vspec.Float(specLE(data, pos, 8), 'f', -1, 64)
 	case TypeYear:
 		if data[pos] == 0 {
 			return vspec.Lit("0000")
@@ -248,24 +317,29 @@ func specCellText(data []byte, pos int, typ byte, metadata uint16, uns bool) vsp
 			vspec.Lit(" "), specHMS((v>>12)&31, (v>>6)&63, v&63), specFrac(metadata, specBE(data, pos+5, specFracBytes(metadata))))
 	case TypeTime2:
 		return specTime2(data, pos, metadata)
-	case TypeVarchar, TypeVarString:
-		if metadata > 255 {
-			l := int(specLE(data, pos, 2))
-			return vspec.Raw(data[pos+2 : pos+2+l])
-		}
-		l := int(data[pos])
-		return vspec.Raw(data[pos+1 : pos+1+l])
+	case TypeBit:
+		return vspec.Raw(data[pos : pos+specCellLen(data, pos, typ, metadata)])
+	case TypeEnum:
+		return vspec.Num(1, specLE(data, pos, int(metadata&0xff)))
+	case TypeSet:
+		return vspec.Raw(data[pos : pos+int(metadata&0xff)])
 	case TypeNewDecimal:
 		return specDecimalText(data, pos, metadata)
+	case TypeString:
+		if metadata>>8 == TypeEnum || metadata>>8 == TypeSet {
+			return vspec.Num(1, specLE(data, pos, int(metadata&0xff)))
+		}
 	}
-	return vspec.Empty()
+	// length-prefixed strings and blobs: the bytes after the prefix, verbatim
+	w := specPrefix(typ, metadata)
+	l := int(specLE(data, pos, w))
+	return vspec.Raw(data[pos+w : pos+w+l])
 }
 
 // ---- contract: CellBytes ----
 
 func vc_CellBytes_requires(data []byte, pos int, typ byte, metadata uint16, isUnSignedInt bool) bool {
-	return specCovered(typ, metadata) && pos >= 0 && pos <= len(data) && len(data)-pos >= specCellMax(typ, metadata) &&
-		len(data)-pos >= specCellLen(data, pos, typ, metadata)
+	return typ != TypeJSON && specCellOK(data, pos, typ, metadata)
 }
 
 func vc_CellBytes_ensures_len(data []byte, pos int, typ byte, metadata uint16, isUnSignedInt bool, out []byte, n int, err error) bool {
@@ -276,15 +350,23 @@ func vc_CellBytes_ensures_value(data []byte, pos int, typ byte, metadata uint16,
 	return vspec.SameText(out, specCellText(data, pos, typ, metadata, isUnSignedInt))
 }
 
+// a present, non-NULL cell never decodes to a nil (NULL-looking) value, and the bytes handed out are the
+// caller's own buffer or fresh memory, never a third party's (C08, C13)
 func vc_CellBytes_ensures_owner(data []byte, pos int, typ byte, metadata uint16, isUnSignedInt bool, out []byte, n int, err error) bool {
 	return out != nil && vspec.FreshOrWithin(out, data)
 }
 
+// ---- contract: cellLength agrees with the same length rule (C09) ----
+
+func vc_cellLength_requires(data []byte, pos int, typ byte, metadata uint16) bool {
+	return specCellOK(data, pos, typ, metadata)
+}
+
+func vc_cellLength_ensures_len(data []byte, pos int, typ byte, metadata uint16, n int, err error) bool {
+	return err == nil && n == specCellLen(data, pos, typ, metadata)
+}
 
 // ---- DECIMAL (decimal2bin layout) ----
-
-// bytes needed for 0..9 leftover digits
-var specDig2bytes = []int{0, 1, 1, 2, 2, 3, 3, 4, 4, 4}
 
 // k-th byte of the value after undoing the sign-bit flip and, for negatives, the byte inversion
 func specDecByte(data []byte, p0 int, neg bool, k int) byte {
@@ -339,11 +421,27 @@ func specDecIntText(data []byte, p0 int, neg bool, lb int, k int) vspec.Text {
 	return vspec.Num(1, g)
 }
 
+// the first k full 9-digit fraction groups; ib = number of bytes of the integer part
+func specDecFracText(data []byte, p0 int, neg bool, ib int, k int) vspec.Text {
+	if k <= 0 {
+		return vspec.Empty()
+	}
+	return specDecFracText(data, p0, neg, ib, k-1).Cat(vspec.Num(9, specDecBE(data, p0, neg, ib+4*(k-1), 4)))
+}
+
 func specSign(neg bool) vspec.Text {
 	if neg {
 		return vspec.Lit("-")
 	}
 	return vspec.Empty()
+}
+
+// integer part: digits without leading zeros, a single 0 when there are none
+func specDecIntPart(data []byte, pos int, neg bool, lb int, intg0 int) vspec.Text {
+	if !specDecNonZero(data, pos, neg, lb, intg0) {
+		return vspec.Lit("0")
+	}
+	return specDecIntText(data, pos, neg, lb, intg0)
 }
 
 func specDecimalText(data []byte, pos int, metadata uint16) vspec.Text {
@@ -352,12 +450,18 @@ func specDecimalText(data []byte, pos int, metadata uint16) vspec.Text {
 	intg0 := intg / 9
 	lb := specDig2bytes[intg%9]
 	neg := data[pos]&0x80 == 0
-	ip := specDecIntText(data, pos, neg, lb, intg0)
-	if !specDecNonZero(data, pos, neg, lb, intg0) {
-		ip = vspec.Lit("0")
+	ip := specDecIntPart(data, pos, neg, lb, intg0)
+	if sc == 0 {
+		return vspec.Cat(specSign(neg), ip)
 	}
-	// scale == 0 only in this probe
-	return vspec.Cat(specSign(neg), ip)
+	ib := lb + 4*intg0
+	frac0 := sc / 9
+	fx := sc % 9
+	full := specDecFracText(data, pos, neg, ib, frac0)
+	if fx == 0 {
+		return vspec.Cat(specSign(neg), ip, vspec.Lit("."), full)
+	}
+	return vspec.Cat(specSign(neg), ip, vspec.Lit("."), full, vspec.Num(fx, specDecBE(data, pos, neg, ib+4*frac0, specDig2bytes[fx])))
 }
 
 // loop 1: `for i := range d { d[i] ^= 0xff }`
